@@ -249,6 +249,9 @@ func OnProxyConnectResponse(_ context.Context, _ *url.URL, req *http.Request, co
 
 	// Body cannot be read from the CONNECT response due to use of closed network connection.
 	res := proxyutil.NewResponse(connectRes.StatusCode, body, req) //nolint:bodyclose // closing body has no effect
+	// The CONNECT request issued by the transport carries no protocol version,
+	// do not let the response inherit "HTTP/0.0" from it.
+	res.Proto, res.ProtoMajor, res.ProtoMinor = "HTTP/1.1", 1, 1
 	res.Header = connectRes.Header.Clone()
 	res.ContentLength = cl
 	return &connectError{res}
